@@ -42,6 +42,12 @@ def bounds(tier):
     ]
 
 
+# long lines: more than 500 encoder frames on a model configured for 512 positions (the protocol model is not run for this
+# shape - every symbol sequence of 500 steps is out of reach; the recorded histories are validated against it all the same)
+LONG = {"name": "L", "sizes": [1, 2], "enclens": [505], "modes": [1], "maxbatches": 2, "syms": ["b", "c"],
+        "shapes": ["d8h1l1long"], "biases": [4, 1], "per_history": 1, "design": False}
+
+
 def constants(b, variant="ok", **over):
     c = {"Sizes": set(b["sizes"]), "EncLens": set(b["enclens"]), "Syms": set(b["syms"]), "Modes": {bool(m) for m in b["modes"]},
          "MaxBatches": b["maxbatches"], "Variant": variant}
@@ -152,8 +158,9 @@ def run(ctx):
                "length cap + 1 < max_seq_len of the model (otherwise the code raises SequenceTooLongException by design)",
                "transcribe_batch is called directly (run_ocr pads every batch to 1088 px, which would only change the encoder length)")
     sharpness(ctx)
-    for b in bounds(ctx.tier):
-        design(ctx, b)
+    for b in bounds(ctx.tier) + [LONG]:
+        if b.get("design", True):
+            design(ctx, b)
         cases = cases_of(ctx, b)
         traces = pmap(C.run_history, cases, procs=6)
         judge(ctx, b, cases, traces)
